@@ -205,11 +205,12 @@ def run(ctx):
         "C01 theorem match_is_first_match and C12 theorem kernel_userspace_same_set (imported, proved in the same lake build)",
         "shim headers harness/c/headers (UAPI types; bpf_ntohs = bswap16 on the little-endian host)",
     ]
-    ctx.prove(["DaeVerif.C02.Props"], ["DaeVerif.C02.Props"], ["DaeVerif/C02/*.lean"], extra_targets=["c02drv"])
-    ctx.required_theorems(REQUIRED)
+    # the three build steps are independent: prove+audit (lake), native route() (clang), Go harness (go test -c)
+    import threading
 
-    n_consts = const_agreement(ctx)
-    glue_tripwire(ctx)
+    def prove():
+        ctx.prove(["DaeVerif.C02.Props"], ["DaeVerif.C02.Props"], ["DaeVerif/C02/*.lean"], extra_targets=["c02drv"])
+        ctx.required_theorems(REQUIRED)
 
     # native build of /repo's CURRENT tproxy.c (unmodified; #included by the driver)
     cdir = os.path.join(VERIF, "harness", "c")
@@ -217,18 +218,29 @@ def run(ctx):
     os.makedirs(os.path.dirname(cdrv), exist_ok=True)
     if os.path.exists(cdrv):
         os.unlink(cdrv)
-    cmd = ["clang", "-O1", "-g", "-fsanitize=address,undefined", "-fno-sanitize-recover=undefined", "-Wno-unused-function",
-           "-I" + cdir, "-I" + os.path.join(REPO, "control", "kern"),
-           os.path.join(cdir, "c02_driver.c"), os.path.join(cdir, "bpf_shim.c"), "-o", cdrv]
-    rc, out, dt = sh(cmd, timeout=900)
-    ctx.log.write(f"$ {' '.join(cmd)} [{dt:.1f}s rc={rc}]\n{out}\n")
-    if rc != 0 or not os.path.exists(cdrv):
-        ctx.say("HARNESS-BUILD-FAILED native tproxy.c:\n" + out[-3000:])
-        return 2
+    cbuild = {}
 
+    def build_c():
+        cmd = ["clang", "-O1", "-g", "-fsanitize=address,undefined", "-fno-sanitize-recover=undefined", "-Wno-unused-function",
+               "-I" + cdir, "-I" + os.path.join(REPO, "control", "kern"),
+               os.path.join(cdir, "c02_driver.c"), os.path.join(cdir, "bpf_shim.c"), "-o", cdrv]
+        rc, out, dt = sh(cmd, timeout=900)
+        cbuild.update(rc=rc, out=out)
+        ctx.log.write(f"$ {' '.join(cmd)} [{dt:.1f}s rc={rc}]\n{out}\n")
+
+    th = [threading.Thread(target=prove), threading.Thread(target=build_c)]
+    for t in th:
+        t.start()
+    n_consts = const_agreement(ctx)
+    glue_tripwire(ctx)
     fake = ctx.fake_bpf_overlay()
     binp = fake and ctx.go_test_build("control", ["control/c02_test.go", "control/c01_test.go", "control/c12_test.go"],
                                       "c02", tags="", extra_overlay=fake)
+    for t in th:
+        t.join()
+    if cbuild.get("rc") != 0 or not os.path.exists(cdrv):
+        ctx.say("HARNESS-BUILD-FAILED native tproxy.c:\n" + cbuild.get("out", "")[-3000:])
+        return 2
     if not binp:
         return 2
     rc, out = ctx.run_harness(binp, "TestVerifC02")
